@@ -83,14 +83,18 @@ def lib_decode(rules, data, spec=None, **opts):
     return {'st': classify(r), 'exc': exc_name(r)}
 
 
-def dec_event(rules, data, T, spec, why, tail=()):
-    ev = {'op': 'dec', 'rules': rules, 'guided': True, 'inp': list(data), 'why': why, 'tail': list(tail),
-          'v': {'nul': 0}, 'proj': 'na', 'rest': [], 'exc': ''}
-    r = lib_decode(rules, bytes(data), spec)
+def dec_event(rules, data, T, spec, why, tail=(), src=0, guided=True, via='bytes'):
+    """decode `data` with the `rules` decoder, guided by spec (or schemaless when guided=False)"""
+    ev = {'op': 'dec', 'rules': rules, 'guided': guided, 'inp': list(data), 'why': why, 'tail': list(tail),
+          'v': {'nul': 0}, 'proj': 'na', 'rest': [], 'exc': '', 'src': src, 'via': via}
+    substrate = bytes(data) if via == 'bytes' else io.BytesIO(bytes(data))
+    r = lib_decode(rules, substrate, spec if guided else None)
     ev['st'] = r['st']
     ev['exc'] = r.get('exc', '')
     if r['st'] == 'ok':
         ev['rest'] = r['rest']
+        if not guided:
+            return ev
         try:
             ev['v'] = U.project(T, r['obj'])
             ev['proj'] = 'ok'
@@ -149,9 +153,9 @@ def leaves_of(obj):
     return [leaf_term(obj)]
 
 
-def decu_event(rules, codec, data):
+def decu_event(rules, codec, data, src=0):
     ev = {'op': 'decu', 'rules': rules, 'codec': codec, 'inp': list(data), 'isvalue': False, 'leaves': [],
-          'reenc': [], 'reenc_st': 'na', 'rest': [], 'exc': ''}
+          'reenc': [], 'reenc_st': 'na', 'rest': [], 'exc': '', 'src': src, 'tail': []}
     r = lib_decode(rules, bytes(data))
     ev['st'] = r['st']
     ev['exc'] = r.get('exc', '')
